@@ -72,6 +72,16 @@ def mk_design(wa, wb, rng):
     out('signed_le', pyrtl.signed_le(a, b), lambda x, y: (int(sgn(x, wa) <= sgn(y, wb)), 1))
     out('signed_gt', pyrtl.signed_gt(a, b), lambda x, y: (int(sgn(x, wa) > sgn(y, wb)), 1))
     out('signed_ge', pyrtl.signed_ge(a, b), lambda x, y: (int(sgn(x, wa) >= sgn(y, wb)), 1))
+    # signed helpers with a plain integer operand (positive, zero, negative), either position
+    for nm_, kk in (('p', rng.randint(1, 9)), ('z', 0), ('n', -rng.randint(1, 9)), ('p1', 1)):
+        wk = (kk.bit_length() if kk >= 0 else (-kk - 1).bit_length()) + 1
+        wr = max(wa, wk) + 1
+        out('signed_add_int_' + nm_, pyrtl.signed_add(a, kk), lambda x, y, kk=kk, wr=wr: ((sgn(x, wa) + kk) & M(wr), wr))
+        out('signed_add_rint_' + nm_, pyrtl.signed_add(kk, a), lambda x, y, kk=kk, wr=wr: ((sgn(x, wa) + kk) & M(wr), wr))
+        ck = Const(kk, signed=True)
+        out('signed_lt_int_' + nm_, pyrtl.signed_lt(a, ck), lambda x, y, kk=kk: (int(sgn(x, wa) < kk), 1))
+        out('signed_ge_int_' + nm_, pyrtl.signed_ge(a, ck), lambda x, y, kk=kk: (int(sgn(x, wa) >= kk), 1))
+        out('signed_mult_int_' + nm_, pyrtl.signed_mult(a, ck), lambda x, y, kk=kk, wk=wk: ((sgn(x, wa) * kk) & M(wa + wk), wa + wk))
     # shifts by a wire amount of any width
     out('shl', pyrtl.shift_left_logical(a, b), lambda x, y: ((x << y) & M(wa) if y < wa + 1 else 0, wa), 'shl')
     out('shla', pyrtl.shift_left_arithmetic(a, b), lambda x, y: ((x << y) & M(wa) if y < wa + 1 else 0, wa))
@@ -84,6 +94,21 @@ def mk_design(wa, wb, rng):
         out('shr_const', pyrtl.shift_right_logical(a, kc), lambda x, y, kc=kc: (x >> kc, wa), 'shr_const', kc)
         out('sra_const', pyrtl.shift_right_arithmetic(a, kc), lambda x, y, kc=kc: ((sgn(x, wa) >> kc) & M(wa), wa))
         out('shla_const', pyrtl.shift_left_arithmetic(a, kc), lambda x, y, kc=kc: ((x << kc) & M(wa), wa))
+    # shifts by a Const wire (any value representable in its width, beyond the data width too)
+    for _j in range(2):
+        bwk = rng.randint(1, 4)
+        kv = rng.randrange(1 << bwk)
+        kw = Const(kv, bitwidth=bwk)
+        sfx = '_constwire%d' % _j
+        out('shl' + sfx, pyrtl.shift_left_logical(a, kw), lambda x, y, kv=kv: ((x << kv) & M(wa) if kv < wa + 1 else 0, wa))
+        out('shla' + sfx, pyrtl.shift_left_arithmetic(a, kw), lambda x, y, kv=kv: ((x << kv) & M(wa) if kv < wa + 1 else 0, wa))
+        out('shr' + sfx, pyrtl.shift_right_logical(a, kw), lambda x, y, kv=kv: (x >> kv, wa))
+        out('sra' + sfx, pyrtl.shift_right_arithmetic(a, kw), lambda x, y, kv=kv: ((sgn(x, wa) >> min(kv, wa)) & M(wa), wa))
+    # negative Verilog strings, the zero magnitude included (-W'd0 is the W-bit constant 0)
+    nz = rng.choice([0, 0, 1 if wb >= 2 else 0])
+    nzv = (-nz) & M(wb)
+    out('add_negstr', a + ("-%d'd%d" % (wb, nz)), lambda x, y, nzv=nzv: (x + nzv, w + 1))
+    out('xor_negstr', a ^ ("-%d'h%x" % (wb, nz)), lambda x, y, nzv=nzv: (x ^ nzv, w))
     # constant operands behave like the equivalent Const
     cv = rng.getrandbits(wb)
     out('add_int', a + cv, lambda x, y, cv=cv: (x + cv, max(wa, max(1, cv.bit_length())) + 1))
